@@ -72,6 +72,55 @@ type Result struct {
 	Events    string     `json:"events,omitempty"` // digest of consensus-relevant response fields
 	Value     string     `json:"value,omitempty"`
 	TmErr     string     `json:"tmerr"` // error of Tendermint's UpdateWithChangeSet on the returned updates ("" = applied)
+	QAns      [][2]string `json:"qans,omitempty"` // Commit: [kind, digest of the answer] for every query kind, asked right after it
+	QD        string      `json:"qd,omitempty"`   // Query: digest of the answer
+}
+
+// QueryKinds are the queries of the specification's environment (latest committed height).
+var QueryKinds = []string{"store-acc", "store-pos", "custom-pool", "custom-params", "custom-vals", "version", "bad-path"}
+
+func (a *App) queryReq(kind string, act Action) abci.RequestQuery {
+	path, data := act.Path, []byte(nil)
+	if act.Data != "" {
+		data, _ = hex.DecodeString(act.Data)
+	}
+	switch kind {
+	case "store-acc":
+		path, data = "/store/"+auth.StoreKey+"/key", append([]byte{0x01}, a.Addr(1)...)
+	case "store-pos":
+		path, data = "/store/"+postypes.StoreKey+"/subspace", postypes.AllValidatorsKey
+	case "custom-pool":
+		path = "/custom/pos/" + postypes.QueryStakedPool
+	case "custom-params":
+		path = "/custom/pos/" + postypes.QueryParameters
+	case "custom-vals":
+		path, data = "/custom/pos/"+postypes.QueryUnstakingValidators, []byte(`{"page":1,"limit":10}`)
+	case "version":
+		path = "/app/version"
+	case "bad-path":
+		path = "/nosuch/thing"
+	}
+	return abci.RequestQuery{Path: path, Data: data, Height: act.Height, Prove: act.Prove}
+}
+
+func queryDigest(out abci.ResponseQuery) string {
+	h := sha256.Sum256([]byte(fmt.Sprintf("%d|%s|%x|%x|%d", out.Code, out.Codespace, out.Key, out.Value, out.Height)))
+	return hex.EncodeToString(h[:8])
+}
+
+// committedAnswers asks every kind of query while the state is exactly the committed one.
+func (a *App) committedAnswers() (out [][2]string) {
+	for _, k := range QueryKinds {
+		func() {
+			defer func() {
+				if r := recover(); r != nil {
+					out = append(out, [2]string{k, "panic"})
+				}
+			}()
+			out = append(out, [2]string{k, queryDigest(a.B.Query(a.queryReq(k, Action{})))})
+		}()
+	}
+	return out
 }
 
 func coins(x int64) sdk.Coins { return sdk.NewCoins(sdk.NewCoin(sdk.DefaultStakeDenom, sdk.NewInt(x))) }
@@ -420,29 +469,10 @@ func (r *Runner) Exec(act Action) (res Result) {
 		}
 		res.Class = classify(res.Code, 0, 0)
 	case "Query":
-		path, data := act.Path, []byte(nil)
-		if act.Data != "" {
-			data, _ = hex.DecodeString(act.Data)
-		}
-		switch act.Kind {
-		case "store-acc":
-			path, data = "/store/"+auth.StoreKey+"/key", append([]byte{0x01}, a.Addr(1)...)
-		case "store-pos":
-			path, data = "/store/"+postypes.StoreKey+"/subspace", postypes.AllValidatorsKey
-		case "custom-pool":
-			path = "/custom/pos/" + postypes.QueryStakedPool
-		case "custom-params":
-			path = "/custom/pos/" + postypes.QueryParameters
-		case "custom-vals":
-			path, data = "/custom/pos/"+postypes.QueryUnstakingValidators, []byte(`{"page":1,"limit":10}`)
-		case "version":
-			path = "/app/version"
-		case "bad-path":
-			path = "/nosuch/thing"
-		}
-		out := a.B.Query(abci.RequestQuery{Path: path, Data: data, Height: act.Height, Prove: act.Prove})
+		out := a.B.Query(a.queryReq(act.Kind, act))
 		res.Code, res.Log = out.Code, trim(out.Log)
 		res.Value = hex.EncodeToString(out.Value)
+		res.QD = queryDigest(out)
 	case "ExtAward":
 		a.OutSel = r.Entropy + act.Amt
 		a.PK.AwardCoinsTo(a.Ctx(), sdk.NewInt(act.Amt), a.Addr(act.To))
@@ -467,6 +497,7 @@ func (r *Runner) Exec(act Action) (res Result) {
 			a.RPC.Add(h)
 		}
 		a.Pending = nil
+		res.QAns = a.committedAnswers()
 		r.cp.ok, r.cp.hdr, r.cp.tick, r.cp.entropy, r.cp.built, r.cp.delivered = true, a.Hdr, r.Tick, r.Entropy, len(r.Built), len(r.Delivered)
 		r.cp.tm = nil
 		if r.TM != nil {
